@@ -179,6 +179,10 @@ def make_graph(rng, kind, nv):
         return [[i, (i + 1) % nv] for i in range(nv)]
     if kind in ("tree", "Tree"):
         return [[rng.randrange(i), i] for i in range(1, nv)]
+    if kind == "twoway-chain":      # a directed graph given by a symmetric adjacency: every link in both directions
+        return [e for i in range(nv - 1) for e in ([i, i + 1], [i + 1, i])]
+    if kind == "twoway-cycle":
+        return [e for i in range(nv) for e in ([i, (i + 1) % nv], [(i + 1) % nv, i])]
     raise ValueError(kind)
 
 
@@ -188,6 +192,9 @@ def build_graph(kind, edges, nv):
     e = np.array(edges, dtype=int).reshape(-1, 2)
     if kind == "Tree":
         return Tree.init_from_edges(e, nv, root_vertex=0)
+    if kind.startswith("twoway"):
+        from menpo.shape import DirectedGraph
+        return DirectedGraph.init_from_edges(e, nv)
     return UndirectedGraph.init_from_edges(e, nv)
 
 
@@ -448,6 +455,11 @@ def gmrf_case(run, X, split, cfg, tag):
     ctx.count("gmrf:backing:%s" % backing)
     ctx.count("increments:%d" % (len(split) - 1))
     inc = gmrf_oracle(ctx, chunks, cfg, rp)
+    if kind.startswith("twoway"):
+        # antiparallel edge pairs: how duplicated blocks are assembled (dense overwrite vs sparse sum) is C12's
+        # subject and outside the Lean assembly model; incremental = batch is decided by the oracle on the real code
+        ctx.count("gmrf:model-skipped:antiparallel-edges")
+        return
     run.ask("gmrf %d %s %d %d %d %s %s" % (bias, "c" if mode == "concatenation" else "s", nv, k, len(edges),
                                             " ".join("%d %d" % (a, b) for a, b in edges), wire_chunks(chunks)),
             "gmrf", inc, rp)
@@ -509,7 +521,7 @@ def explore_pca(run, scale):
 
 def gmrf_configs():
     out = []
-    for kind in ("edgeless", "chain", "cycle", "tree", "Tree"):
+    for kind in ("edgeless", "chain", "cycle", "tree", "Tree", "twoway-chain", "twoway-cycle"):
         for mode in (("concatenation",) if kind == "edgeless" else ("concatenation", "subtraction")):
             for sparse in (True, False):
                 for bias in (0, 1):
